@@ -23,6 +23,12 @@ func VerifResolveCell() {
 	g.InsertNewSymbol(p2)
 	A := symbol.NewSymbol(5, "A")
 	g.InsertNewSymbol(A)
+	// a bystander: a third rule with a precedence of its own whose only lookahead is another
+	// token; it is no candidate of the cell and must not influence it
+	u := symbol.NewSymbol(6, "u")
+	g.InsertNewSymbol(u)
+	p3 := symbol.NewSymbol(7, "p3")
+	g.InsertNewSymbol(p3)
 
 	// precedence of the lookahead token and of the two rules' precedence symbols
 	lvl := func(name string, s *symbol.Symbol) {
@@ -38,6 +44,16 @@ func VerifResolveCell() {
 	lvl("tok", tok)
 	lvl("r1", p1)
 	lvl("r2", p2)
+	bystander := verifBool("bystander")
+	if bystander {
+		lvl("r3", p3)
+		verifAssume(p3.Prec != -1)
+		for _, o := range []*symbol.Symbol{tok, p1, p2} {
+			if o.Prec == p3.Prec {
+				verifAssume(o.PrecType == p3.PrecType)
+			}
+		}
+	}
 	// one %left/%right/%nonassoc line is one level: equal level => same associativity
 	if tok.Prec == p1.Prec {
 		verifAssume(tok.PrecType == p1.PrecType)
@@ -61,13 +77,20 @@ func VerifResolveCell() {
 	g.InsertNewRules(r0)
 	g.InsertNewRules(r1)
 	g.InsertNewRules(r2)
+	r3 := rule.NewProductoinRule(A, []*symbol.Symbol{u})
+	if bystander {
+		r3.SetPrecSymbol(p3)
+	}
+	g.InsertNewRules(r3)
 
 	l := NewLALR(&g)
 	shift := Transistor{Index: 0, q: 0, sym_or_rule: 2, to: 7}
 	red1 := Transistor{Index: 1, q: 0, sym_or_rule: uint(1) | CheckMask, to: MaxInt}
 	red2 := Transistor{Index: 2, q: 0, sym_or_rule: uint(2) | CheckMask, to: MaxInt}
+	red3 := Transistor{Index: 3, q: 0, sym_or_rule: uint(3) | CheckMask, to: MaxInt}
 	l.LookAheadSet[1] = []int{2}
 	l.LookAheadSet[2] = []int{2}
+	l.LookAheadSet[3] = []int{6}
 
 	var list []Transistor
 	sr := verifBool("shiftReduce")
@@ -87,10 +110,21 @@ func VerifResolveCell() {
 			list = []Transistor{red1, red2}
 		}
 	}
+	if bystander {
+		verifCover("bystander")
+		if verifBool("bystanderLast") {
+			list = append(list, red3)
+		} else {
+			list = append([]Transistor{red3}, list...)
+		}
+	}
 	set, err := l.CheckAndResolveConflict(0, list)
 	verifAssert(err == nil, "C04: CheckAndResolveConflict failed")
 	verifAssert(len(set[2]) == 1, "C04: cell not resolved to a single action")
 	res := set[2][0]
+	if bystander {
+		verifAssert(len(set[6]) == 1 && set[6][0].ActionType == REDUCE && set[6][0].ActionIndex == -3, "C04: a cell with a single candidate does not hold it")
+	}
 
 	if sr {
 		if tok.Prec != -1 && p1.Prec != -1 {
